@@ -1,12 +1,20 @@
 #!/usr/bin/env python3
-"""tools/run_seeds.py [ids...] - apply every confirmed seeded change to /repo, run the quick check of its
-property, revert, and write /verif/seeded/RESULTS.md (which checks catch which changes)."""
+"""tools/run_seeds.py [-j N] [ids...] - run the quick check of its property against every confirmed seeded change and
+write /verif/seeded/RESULTS.md (which checks catch which changes).
+
+Each worker owns one scratch worktree of /repo HEAD outside /repo and /verif; a change is applied there
+(git apply), the check runs with VERIF_REPO pointing at the worktree (evidence goes to the worktree, not to
+/verif/evidence), and the change is undone (git checkout -- .).  /repo's own working tree is never touched, so this can
+run while other checks are running.  The worktrees are removed at the end."""
 import glob
 import json
 import os
 import re
 import subprocess
 import sys
+import tempfile
+from concurrent.futures import ThreadPoolExecutor
+from queue import Queue
 
 VERIF = os.path.dirname(os.path.dirname(os.path.abspath(__file__)))
 
@@ -15,44 +23,66 @@ def sh(cmd, **kw):
     return subprocess.run(cmd, shell=True, capture_output=True, text=True, **kw)
 
 
-def main():
-    want = set(sys.argv[1:])
-    rows = []
-    assert sh("git -C /repo status --porcelain").stdout.strip() == "", "/repo working tree must be clean"
-    for d in sorted(glob.glob(os.path.join(VERIF, "seeded", "C*-m*"))):
-        sid = os.path.basename(d)
-        if want and sid not in want:
-            continue
-        meta = json.load(open(os.path.join(d, "meta.json")))
-        pid = sid.split("-")[0]
-        if meta.get("status") == "obsolete":
-            rows.append((sid, pid, "obsolete", "-", meta.get("summary", "")[:90]))
-            continue
-        if not meta.get("ok"):
-            rows.append((sid, pid, "unconfirmed", "-", meta.get("summary", "")[:90]))
-            continue
-        a = sh(f"git -C /repo apply {d}/patch.diff")
+def one(d, wts):
+    sid = os.path.basename(d)
+    meta = json.load(open(os.path.join(d, "meta.json")))
+    pid = sid.split("-")[0]
+    summary = " ".join(str(meta.get("summary", "")).split())[:110].replace("|", "/")
+    if meta.get("status") == "obsolete":
+        return (sid, pid, "obsolete", "-", summary)
+    if not meta.get("ok"):
+        return (sid, pid, "unconfirmed", "-", summary)
+    wt = wts.get()
+    try:
+        a = sh(f"git -C {wt} apply {d}/patch.diff")
         if a.returncode != 0:
-            rows.append((sid, pid, "patch-does-not-apply", "-", meta.get("summary", "")[:90]))
-            continue
+            return (sid, pid, "patch-does-not-apply", "-", summary)
         try:
-            r = sh(f"cd {VERIF} && ./check {pid} quick")
+            r = sh(f"cd {VERIF} && VERIF_REPO={wt} VERIF_EVIDENCE_DIR={wt}/_evidence ./check {pid} quick")
         finally:
-            sh("git -C /repo checkout -- .")
-        viol = len(re.findall(r"^VIOLATION property=", r.stdout, re.M))
-        verdict = "caught" if r.returncode == 1 and viol else ("HARNESS-ERROR" if r.returncode == 2 else "MISSED")
-        rows.append((sid, pid, verdict, str(viol), meta.get("summary", "")[:90]))
-        print(sid, verdict, viol, flush=True)
+            sh(f"git -C {wt} checkout -- . && rm -rf {wt}/_evidence")
+    finally:
+        wts.put(wt)
+    viol = len(re.findall(r"^VIOLATION property=", r.stdout, re.M))
+    verdict = "caught" if r.returncode == 1 and viol else ("HARNESS-ERROR" if r.returncode == 2 else "MISSED")
+    print(sid, verdict, viol, flush=True)
+    return (sid, pid, verdict, str(viol), summary)
+
+
+def main():
+    args = sys.argv[1:]
+    jobs = 3
+    if args[:1] == ["-j"]:
+        jobs = int(args[1])
+        args = args[2:]
+    want = set(args)
+    dirs = [d for d in sorted(glob.glob(os.path.join(VERIF, "seeded", "C*-*m*"))) if os.path.isdir(d) and (not want or os.path.basename(d) in want)]
+    wts = Queue()
+    made = []
+    for _ in range(jobs):
+        wt = tempfile.mkdtemp(prefix="seedrun.", dir="/tmp")
+        os.rmdir(wt)
+        assert sh(f"git -C /repo worktree add -q --detach {wt} HEAD").returncode == 0
+        made.append(wt)
+        wts.put(wt)
+    try:
+        with ThreadPoolExecutor(jobs) as ex:
+            rows = list(ex.map(lambda d: one(d, wts), dirs))
+    finally:
+        for wt in made:
+            sh(f"git -C /repo worktree remove --force {wt}")
     if not want:
+        n_ok = sum(1 for r in rows if r[2] == "caught")
+        n_app = sum(1 for r in rows if r[2] in ("caught", "MISSED", "HARNESS-ERROR"))
         with open(os.path.join(VERIF, "seeded", "RESULTS.md"), "w") as f:
             f.write("# Seeded property-breaking changes vs. the quick checks\n\n")
             f.write("Each change was written by a fresh sub-agent that saw only the property text and a scratch worktree; `meta.json` records the\n")
-            f.write("confirmation (suite green with the change, demo fails with it, passes without). Produced by `tools/run_seeds.py` at /repo HEAD "
-                    + sh("git -C /repo rev-parse --short HEAD").stdout.strip() + ".\n\n")
+            f.write("confirmation (suite green with the change, demo fails with it, passes without). Produced by `tools/run_seeds.py` against scratch\n")
+            f.write("worktrees of /repo HEAD " + sh("git -C /repo rev-parse --short HEAD").stdout.strip() + f" (VERIF_REPO). **{n_ok} of {n_app} applicable changes are reported by the quick check of their own property.**\n\n")
             f.write("| seed | property | quick check | violations reported | change |\n|---|---|---|---|---|\n")
             for row in rows:
                 f.write("| " + " | ".join(row) + " |\n")
-        print("written seeded/RESULTS.md")
+        print("written seeded/RESULTS.md", n_ok, "of", n_app)
     bad = [r for r in rows if r[2] in ("MISSED", "HARNESS-ERROR")]
     return 1 if bad else 0
 
